@@ -225,12 +225,18 @@ def model_A():
         oh.make_node("Cast", ["shp"], ["shpf"], to=1),
         oh.make_node("ReduceSum", ["m1"], ["rs"], keepdims=0),
         oh.make_node("Mul", ["rs", "shpf"], ["o2"]),
+        oh.make_node("Slice", ["x", "b1", "e1", "ax2"], ["sl1"]),      # SlicesSplit: a pattern with two output nodes,
+        oh.make_node("Relu", ["sl1"], ["rl1"]),
+        oh.make_node("Slice", ["x", "b0", "e0", "ax2"], ["sl0"]),      # met in the "wrong" order
+        oh.make_node("Add", ["sl0", "rl1"], ["o3"]),
     ]
     return _mk(
         nodes,
         [_vi("x", [2, 3, 4]), _vi("dyn", [2], 7), _vi("img", [1, 2, 5, 5])],
-        [_vi("m1", [8, 3]), _vi("c1", [1, 3, 5, 5]), _vi("o2", [3])],
-        [_init("s1", np.array([6, 4], i64)), _init("s2", np.array([4, 6], i64)),
+        [_vi("m1", [8, 3]), _vi("c1", [1, 3, 5, 5]), _vi("o2", [3]), _vi("o3", [2, 3, 2])],
+        [_init("b0", np.array([0], i64)), _init("e0", np.array([2], i64)), _init("b1", np.array([2], i64)),
+         _init("e1", np.array([4], i64)), _init("ax2", np.array([2], i64)),
+         _init("s1", np.array([6, 4], i64)), _init("s2", np.array([4, 6], i64)),
          _init("pads", np.array([0, 0, 1, 1, 0, 0, 1, 1], i64)),
          _init("w", np.arange(54, dtype=np.float32).reshape(3, 2, 3, 3))],
         [_vi("r1", [6, 4]), _vi("r2", [4, 6]), _vi("f1", [4, 6]), _vi("p1", [1, 2, 7, 7])],
@@ -869,7 +875,8 @@ def snapshot(P: _Proc) -> dict:
     from onnxscript import onnx_types
 
     snap["types"] = sorted(f"{v.__name__}|{k[1]}" for k, v in onnx_types._tensor_type_shape_cache.items() if k not in P.base_types)
-    snap["opsets"] = sorted(f"{k[0].__name__}|{k[1]}|{k[2]}" for k in values.Opset.cache if k not in P.base_opsets)
+    snap["opsets"] = sorted("|".join([getattr(k[0], "__name__", str(k[0]))] + [str(x) for x in k[1:]]) if isinstance(k, tuple) else str(k)
+                            for k in values.Opset.cache if k not in P.base_opsets)
     pb = _pattern_ir._pattern_builder
     snap["patBuilder"] = "onnxop" if pb is _pattern_ir.onnxop else "leaked:" + str(pb)
     snap["stash"] = {
